@@ -568,6 +568,41 @@ func (c *Ctx) Bin(op Op, a, b *Term) *Term {
 			return c.BVBig(new(big.Int).Sub(ca, cb), w)
 		}
 	}
+	// shifts by a constant are extracts / concatenations
+	if (op == OpBvShl || op == OpBvLshr) && b.IsConst() && !a.IsConst() {
+		if b.Val.Cmp(big.NewInt(int64(w))) >= 0 {
+			return c.BVConst(0, w)
+		}
+		k := int(b.Val.Int64())
+		if k > 0 {
+			if op == OpBvLshr {
+				return c.Zext(c.Extract(a, w-1, k), k)
+			}
+			return c.Concat(c.Extract(a, w-1-k, 0), c.BVConst(0, k))
+		}
+	}
+	// (x : 0^k) | zext(y), y at most k bits wide  =  x : zext(y)
+	if op == OpBvOr {
+		for i := 0; i < 2; i++ {
+			x, y := a, b
+			if i == 1 {
+				x, y = b, a
+			}
+			if x.Op == OpConcat && x.Args[1].IsConst() && x.Args[1].Val.Sign() == 0 {
+				k := x.Args[1].S.W
+				var low *Term
+				switch {
+				case y.Op == OpZext && y.Args[0].S.W <= k:
+					low = c.Zext(y.Args[0], k-y.Args[0].S.W)
+				case y.IsConst() && y.Val.BitLen() <= k:
+					low = c.BVBig(y.Val, k)
+				}
+				if low != nil {
+					return c.Concat(x.Args[0], low)
+				}
+			}
+		}
+	}
 	// light algebraic simplification
 	switch op {
 	case OpBvAnd:
